@@ -1,4 +1,139 @@
-import EphVerif.Spec.Hmac
+/-
+C08 — SHA-256 and HMAC-SHA256 match the standards for every input.
+
+  Spec   : EphVerif/Spec/Sha256.lean (FIPS 180-4), EphVerif/Spec/Hmac.lean (RFC 2104)
+  Model  : EphVerif/Model/Sha256.lean, EphVerif/Model/Hmac.lean (transcription of src/crypto/*.cpp,
+           every table entry / rotation amount / size from Generated/C08.lean)
+  Lemmas : EphVerif/Lemmas/C08{Compress,Stream,Hmac,Const}.lean
+
+Property theorems only.  Three groups:
+  (A) the model of the code equals the specification, for every input and every way of splitting it;
+  (B) the specification's constants are the standard's (generated tables = spec tables; the spec
+      tables are the 32-bit fractions of the roots of the first primes; the padding length is the
+      smallest solution the standard asks for);
+  (C) the specification reproduces the published example values (kernel evaluation):
+      EphVerif/Proofs/C08Vectors.lean.
+-/
+import EphVerif.Lemmas.C08Hmac
+import EphVerif.Lemmas.C08Const
+
 namespace EphVerif.C08
-theorem stub : True := trivial
+open EphVerif.Model
+open EphVerif.Spec.Sha256 (K H0 Hash padZeroBits pad)
+
+/-! ## (A) model = specification -/
+
+/-- For every list of pieces, feeding them to the streaming hasher one `update` call each and
+    finalizing gives the specification's SHA-256 of their concatenation.  No length hypothesis:
+    `bit_len_` (mod 2^64) and the specification's length field (mod 2^64) agree even beyond
+    2^61 bytes; below 2^61 bytes (`sha_streaming`) the right-hand side is the FIPS 180-4 value. -/
+theorem sha_streaming_any_length (cs : List (List UInt8)) :
+    Sha256.finalize (cs.foldl Sha256.update Sha256.init) = Spec.sha256 cs.flatten := by
+  have h := finalize_eq _ _ (absorbed_foldl cs _ _ absorbed_init)
+  rw [List.nil_append] at h
+  exact h
+
+/-- C08, SHA-256 clause: every message of fewer than 2^61 bytes (2^64 bits, the domain of
+    FIPS 180-4), fed in any split of incremental updates, hashes to the FIPS 180-4 value. -/
+theorem sha_streaming (cs : List (List UInt8)) (_h : cs.flatten.length < 2 ^ 61) :
+    Sha256.finalize (cs.foldl Sha256.update Sha256.init) = Spec.sha256 cs.flatten :=
+  sha_streaming_any_length cs
+
+/-- any two ways of splitting the same message give the same digest -/
+theorem sha_split_independent (cs ds : List (List UInt8)) (h : cs.flatten = ds.flatten) :
+    Sha256.finalize (cs.foldl Sha256.update Sha256.init) = Sha256.finalize (ds.foldl Sha256.update Sha256.init) := by
+  rw [sha_streaming_any_length, sha_streaming_any_length, h]
+
+/-- the one-shot entry point `Sha256::digest` -/
+theorem sha_digest (m : List UInt8) : Sha256.digest m = Spec.sha256 m := digest_eq m
+
+/-- `buffer_size_ < 64` after any sequence of updates: the branch of the model's `updateLoop` that
+    stands for a non-terminating C++ loop is unreachable, and `buffer_[buffer_size_++]` in
+    `finalize` is in bounds. -/
+theorem buffer_bounded (cs : List (List UInt8)) : (cs.foldl Sha256.update Sha256.init).buf.length < 64 := by
+  have h := absorbed_foldl cs _ _ absorbed_init
+  rw [h.buf, tail_length]; omega
+
+/-- below 2^61 bytes `bit_len_` has not wrapped: it *is* the message length in bits -/
+theorem bit_len_exact (cs : List (List UInt8)) (h : cs.flatten.length < 2 ^ 61) :
+    (cs.foldl Sha256.update Sha256.init).bitLen.toNat = 8 * cs.flatten.length := by
+  have hA := absorbed_foldl cs _ _ absorbed_init
+  rw [hA.bitLen, List.nil_append, UInt64.toNat_ofNat']
+  omega
+
+/-- C08, HMAC clause: for every key (of any length, including longer than the block size) and
+    every message, `HmacSha256::compute` is the RFC 2104 value. -/
+theorem hmac (key data : List UInt8) : Hmac.compute key data = Spec.hmacSha256 key data := compute_eq key data
+
+/-- C08, verification clause: `HmacSha256::verify` accepts exactly the 32-byte correct tag. -/
+theorem verify (key data tag : List UInt8) :
+    Hmac.verify key data tag = true ↔ tag.length = 32 ∧ tag = Spec.hmacSha256 key data := verify_iff key data tag
+
+theorem verify_accepts_correct_tag (key data : List UInt8) :
+    Hmac.verify key data (Spec.hmacSha256 key data) = true :=
+  (verify key data _).mpr ⟨Spec.hmacSha256_length key data, rfl⟩
+
+theorem verify_rejects_wrong_length (key data tag : List UInt8) (h : tag.length ≠ 32) :
+    Hmac.verify key data tag = false := by
+  cases hv : Hmac.verify key data tag with
+  | false => rfl
+  | true => exact absurd ((verify key data tag).mp hv).1 h
+
+/-! non-vacuity of the hypotheses above -/
+example : ([[0x61], [], [0x62, 0x63]] : List (List UInt8)).flatten.length < 2 ^ 61 := by decide
+example : ([[0x61], [0x62, 0x63]] : List (List UInt8)).flatten = ([[0x61, 0x62], [], [0x63]] : List (List UInt8)).flatten := by
+  decide
+example : ([1, 2, 3] : List UInt8).length ≠ 32 := by decide
+
+/-! ## (B) the constants -/
+
+/-- (T) the tables, amounts and sizes regenerated from the C++ source equal the specification's
+    (the literals on the right are those of FIPS 180-4 / RFC 2104, not of `Generated/`). -/
+theorem generated_constants :
+    Gen.C08.kRoundConstants = K ∧ toSpec (Sha256.Words8.ofList Gen.C08.initState) = H0 ∧
+    Gen.C08.big_sigma0 = (2, 13, 22) ∧ Gen.C08.big_sigma1 = (6, 11, 25) ∧
+    Gen.C08.small_sigma0 = (7, 18, 3) ∧ Gen.C08.small_sigma1 = (17, 19, 10) ∧
+    Gen.C08.blockSize = 64 ∧ Gen.C08.spaceBase = 64 ∧ Gen.C08.terminator = 0x80 ∧ Gen.C08.padThreshold = 56 ∧
+    Gen.C08.lengthOffset = 56 ∧ Gen.C08.lengthOffset2 = 56 ∧ Gen.C08.lengthTopByte = 7 ∧ Gen.C08.bitsPerByte = 8 ∧
+    Gen.C08.hmacBlockSize = 64 ∧ Gen.C08.hmacDigestSize = 32 ∧ Gen.C08.opad = 0x5c ∧ Gen.C08.ipad = 0x36 :=
+  ⟨gen_K, gen_H0, gen_sigma.1, gen_sigma.2.1, gen_sigma.2.2.1, gen_sigma.2.2.2, rfl, rfl, rfl, rfl, rfl, rfl, rfl, rfl,
+    rfl, rfl, rfl, rfl⟩
+
+/-- `primes64` is the list of the first sixty-four primes -/
+theorem first_64_primes : primes64 = primesBelow 312 ∧ primes64.length = 64 := primes64_are_the_first_64_primes
+
+/-- FIPS 180-4 §4.2.2: `K_i` is the first 32 bits of the fractional part of the cube root of the
+    `i`-th prime, `i = 0 … 63`:  `(n·2^32 + K_i)^3 ≤ p_i·2^96 < (n·2^32 + K_i + 1)^3` for some `n`. -/
+theorem K_is_standard :
+    K.length = 64 ∧ ∀ i, i < 64 → IsFrac32OfRoot 3 (primes64.getD i 0) (K.getD i 0).toNat := by
+  refine ⟨rfl, fun i hi => isFrac32OfRoot_of_B _ _ _ ?_⟩
+  have h : ∀ i ∈ List.range 64, isFrac32OfRootB 3 (primes64.getD i 0) (K.getD i 0).toNat = true := by decide +kernel
+  exact h i (List.mem_range.mpr hi)
+
+/-- FIPS 180-4 §5.3.3: `H0_i` is the first 32 bits of the fractional part of the square root of
+    the `i`-th prime, `i = 0 … 7`:  `(n·2^32 + H0_i)^2 ≤ p_i·2^64 < (n·2^32 + H0_i + 1)^2`. -/
+theorem H0_is_standard :
+    ∀ i, i < 8 → IsFrac32OfRoot 2 (primes64.getD i 0)
+      (([H0.a, H0.b, H0.c, H0.d, H0.e, H0.f, H0.g, H0.h] : List UInt32).getD i 0).toNat := by
+  intro i hi
+  apply isFrac32OfRoot_of_B
+  have h : ∀ i ∈ List.range 8, isFrac32OfRootB 2 (primes64.getD i 0)
+      (([H0.a, H0.b, H0.c, H0.d, H0.e, H0.f, H0.g, H0.h] : List UInt32).getD i 0).toNat = true := by decide +kernel
+  exact h i (List.mem_range.mpr hi)
+
+/-- FIPS 180-4 §5.1.1: the number of zero bits is the smallest non-negative solution of
+    `l + 1 + k ≡ 448 (mod 512)` -/
+theorem pad_zero_bits_is_smallest_solution (l : Nat) :
+    (l + 1 + padZeroBits l) % 512 = 448 ∧ ∀ k, k < padZeroBits l → (l + 1 + k) % 512 ≠ 448 := by
+  unfold padZeroBits
+  constructor
+  · omega
+  · intro k hk; omega
+
+/-- the padded message is a whole number of 512-bit blocks -/
+theorem pad_length (M : List UInt8) : (pad M).length % 64 = 0 := by
+  unfold pad Spec.Sha256.padding padZeroBits
+  simp only [List.length_append, List.length_cons, List.length_replicate, be64_length]
+  omega
+
 end EphVerif.C08
